@@ -225,7 +225,79 @@ func fileImportHandle(raw []byte) map[string]interface{} {
 	return res
 }
 
+// mixedimport: graphs that mix module-map modules and file modules, with the import directory different from the working
+// directory: a map module importing a file module, a file module importing a map module, file modules in a subdirectory
+// importing their siblings.
+func mixedImportHandle(raw []byte) map[string]interface{} {
+	var c struct {
+		ID   int    `json:"id"`
+		Main string `json:"main"` // the name the main script imports
+	}
+	if err := json.Unmarshal(raw, &c); err != nil {
+		return map[string]interface{}{"error": err.Error()}
+	}
+	dir, err := ioutil.TempDir(os.Getenv("VERIF_SCRATCH_DIR"), "mixed")
+	if err != nil {
+		return map[string]interface{}{"error": err.Error()}
+	}
+	defer os.RemoveAll(dir)
+	imp := filepath.Join(dir, "imp")
+	other := filepath.Join(dir, "other")
+	_ = os.MkdirAll(filepath.Join(imp, "nested"), 0o755)
+	_ = os.MkdirAll(other, 0o755)
+	files := map[string]string{
+		filepath.Join(imp, "helper.tengo"):      "export \"FROM-HELPER\"\n",
+		filepath.Join(imp, "a.tengo"):           "export import(\"lib2\")\n",
+		filepath.Join(imp, "e.tengo"):           "export import(\"nested/c\")\n",
+		filepath.Join(imp, "nested", "c.tengo"): "export import(\"d\")\n",
+		filepath.Join(imp, "nested", "d.tengo"): "export \"FROM-D\"\n",
+		filepath.Join(imp, "d.tengo"):           "export \"FROM-OUTER-D\"\n",
+		// decoys in the working directory: never the right answer
+		filepath.Join(other, "helper.tengo"): "export \"FROM-CWD\"\n",
+		filepath.Join(other, "d.tengo"):      "export \"FROM-CWD\"\n",
+	}
+	for f, body := range files {
+		_ = ioutil.WriteFile(f, []byte(body), 0o644)
+	}
+	mm := tengo.NewModuleMap()
+	mm.AddSourceModule("lib", []byte("export import(\"helper\")\n"))
+	mm.AddSourceModule("lib2", []byte("export \"FROM-LIB2\"\n"))
+	mm.AddSourceModule("lib3", []byte("export [import(\"lib2\"), import(\"helper\"), import(\"a\")]\n"))
+	s := tengo.NewScript([]byte(fmt.Sprintf("out := import(%q)\n", c.Main)))
+	s.SetImports(mm)
+	s.EnableFileImport(true)
+	_ = s.SetImportDir(imp)
+	cwd, _ := os.Getwd()
+	_ = os.Chdir(other)
+	defer os.Chdir(cwd)
+	res := map[string]interface{}{}
+	var comp *tengo.Compiled
+	func() {
+		defer func() {
+			if r := recover(); r != nil {
+				res["result"] = "panic"
+				res["msg"] = fmt.Sprint(r)
+			}
+		}()
+		comp, err = s.Run()
+	}()
+	if res["result"] != nil {
+		return res
+	}
+	if err != nil {
+		res["result"] = "error"
+		res["msg"] = strings.ReplaceAll(err.Error(), dir, "{dir}")
+		return res
+	}
+	res["result"] = "ok"
+	res["out"] = comp.Get("out").String()
+	return res
+}
+
 func init() {
+	register("mixedimport", "graphs mixing module-map and file modules", func(args []string) error {
+		return runCases(20*time.Second, mixedImportHandle)
+	})
 	register("modgraph", "compile import graphs chosen by Modules.tla", func(args []string) error {
 		return runCases(20*time.Second, modgraphHandle)
 	})
